@@ -11,7 +11,7 @@ from drive import Result
 RULE = ("Hypothesis generates models (N<=4 quick, <=5 thorough) with beta in [0.5,200] (most blocks negligible when cold) and a "
         "truncation tolerance eps: 0, or log-uniform in [1e-15,1e-2]; the same scenario is run without and with truncateBlocks(eps) "
         "(applied before operators/GFs are prepared; in half of the cases preceded by 1-2 earlier truncations of the same density matrix "
-        "with other tolerances, after which only the last tolerance may matter).  Checked: a block reported as not retained has no weight above eps; with eps=0 every "
+        "with other tolerances, after which only the last tolerance may matter).  Checked: a block reported as not retained has no weight above eps; with eps=0, or whenever no block is discarded, every "
         "observable is unchanged (1e-14 relative); otherwise |dG| <= 2 eps dim/|Im z| + drop bound, |d<c+c>| <= eps dim, "
         "|d chi_AB(W)| <= eps dim max(beta, 2/|W|) + drop bound, |d chi_ijkl| <= eps beta^3/6 * sum_chains|M| + C02 tolerance.  Non-trivial: "
         "at least one block discarded and one retained, and for some compared quantity the bound is below 10% of the untruncated value.")
@@ -109,7 +109,7 @@ def execute(case, ctx):
         classes.append("retruncated")
     classes.append("all-retained" if ndisc == 0 else ("some-discarded" if ndisc < len(ret) else "all-discarded"))
     tight = False
-    zero = (eps == 0.0)
+    zero = (eps == 0.0) or ndisc == 0        # nothing discarded => nothing may change at all
 
     def cmp(x, y, bound, what, sig):
         nonlocal tight
